@@ -121,14 +121,30 @@ impl<T> Read for WebsocketStreamWrapper<T> where T : Read + Write {
 impl<T> Write for WebsocketStreamWrapper<T> where T : Read + Write {
     fn write(&mut self, buf: &[u8]) -> std::io::Result<usize> {
         let message = Message::Binary(buf.to_vec());
-        let write_result = self.stream.send(message);
 
-        match write_result {
+        // Queue the message.  Unless the websocket's write buffer is full (in which case the message is handed
+        // back), tungstenite keeps the frame and completes it on later write/flush calls, even when the transport
+        // would block right now.  From that point on the bytes are accepted: reporting would-block instead would
+        // make the caller submit the same bytes again and they would appear twice in the byte stream.
+        match self.stream.write(message) {
+            Ok(()) => {}
+            Err(err) => {
+                if !is_tungstenite_error_would_block(&err) {
+                    return Err(map_tungstenite_error_to_io_error(err));
+                }
+            }
+        }
+
+        match self.stream.flush() {
             Ok(()) => {
                 Ok(buf.len())
             }
             Err(err) => {
-                Err(map_tungstenite_error_to_io_error(err))
+                if is_tungstenite_error_would_block(&err) {
+                    Ok(buf.len())
+                } else {
+                    Err(map_tungstenite_error_to_io_error(err))
+                }
             }
         }
     }
